@@ -9,7 +9,8 @@ part "tree": every renderable-tree description of the tier's families (vf/gen.py
         (2) for v in {m.maximum, m.minimum} with v >= max(1, struct_min(tree)): a fresh object rendered
             with console.render(obj, options.update(width=v)) has no line wider than v cells
             (one render per distinct v and tree; widths by vf/width.py)
-part "text": every string over {a, b, space, U+3042 (wide), U+0301 (zero width), "\\n"} up to the
+part "text": every string over {a, b, space, W (wide), Z (zero width), "\\n"} -- W / Z = last code point of
+    the first multi-code-point double-width / zero-width range of the width table -- up to the
     tier's length x every A:  Measurement.get(Text(s), A) == (min(word, A), min(line, A)) where
     word = widest whitespace-delimited word, line = widest "\\n"-line, both from the harness's width
     table (A < 1 -> (0, 0)); a text without any word has no minimum clause (the statement is silent);
@@ -56,7 +57,8 @@ LEVEL_NOTE = ("Trusted: CPython, CELL_WIDTHS table data, vf/gen.py, vf/structmin
 
 A_FULL = tuple(range(0, 25)) + (40, 80, 200)
 A_SHORT = (0, 1, 2, 3, 4, 5, 6, 8, 10, 12, 16, 24, 80)
-SIGMA = ["a", " ", "\u3042", "\n", "b", "\u0301"]
+# the wide and the zero-width symbol are the LAST code points of a width-table range (gen._edge_chars)
+SIGMA = ["a", " ", gen.WIDE_LAST, "\n", "b", gen.ZERO_LAST]
 
 # families of gen.families(tier) used by the tree part, with their A-set
 TREE_FAMILIES = {
@@ -64,7 +66,7 @@ TREE_FAMILIES = {
     "thorough": {"D1": A_FULL, "D1x1": A_FULL, "D2": A_SHORT, "D2x2": A_SHORT, "D3": A_SHORT,
                  "CH3": A_FULL, "CH4": A_SHORT},
 }
-TREES_PER_SHARD = {"quick": 500, "thorough": 2500}
+TREES_PER_SHARD = {"quick": 200, "thorough": 1500}
 TEXT_LEN = {"quick": 5, "thorough": 7}
 TEXT_OPT_LEN = {"quick": 4, "thorough": 5}
 TEXT_OPTS = [("justify", "left"), ("justify", "center"), ("justify", "right"), ("justify", "full"),
@@ -310,7 +312,7 @@ def describe(tier, seed, res):
     return {
         "rule": ("tree part: families [%s] of vf/gen.py (definitions in gen.families.__doc__) plus %d D1 default-option "
                  "trees with every leaf wrapped in NoMeasure / Cast; A-sets: full = 0..24 u {40,80,200}, short = %s. "
-                 "text part: all %d strings over {a, space, U+3042, newline, b, U+0301} of length <= %d x full A-set, and "
+                 "text part: all %d strings over {a, space, U+115F-like wide range end, newline, b, U+036F-like zero-width range end} of length <= %d x full A-set, and "
                  "strings of length <= %d x short A-set x {Cast, 8 single Text options}. An evaluation is one "
                  "Measurement.get (or one wrap-at-maximum render); %d feedback renders were judged. Non-trivial: a "
                  "reported minimum / maximum at or above the structural minimum was fed back into a render, or a text whose "
